@@ -138,6 +138,15 @@ def run(ctx):
             battery += [("set", n, v), ("get", n)]
     for i in range(0, len(battery), 40):
         histories.append(battery[i:i + 40])
+    # the derived separator preferences follow Language and DecimalSeparator at once (set_separators), in every order
+    sep_expr = "<math><mn>1,234</mn><mo>+</mo><mn>5.678</mn></math>"
+    for lang in ["en", "de", "de-ch", "es", "es-mx", "sv", "fi", "en-gb", "vi", "fr", "zz", "Auto"]:
+        h = []
+        for ds in [",", ".", "Auto", "Custom", ",", "Auto", "."]:
+            h += [("set", "DecimalSeparator", ds), ("get", "DecimalSeparators"), ("get", "BlockSeparators"), ("set", "Language", lang), ("get", "DecimalSeparators"), ("get", "BlockSeparators"),
+                  ("mathml", sep_expr), ("speech",)]
+        histories.append(h)
+        histories.append([("set", "Language", lang), ("get", "DecimalSeparators")] + h[:16] + [("set", "Language", "en"), ("get", "DecimalSeparators"), ("get", "BlockSeparators")])
     for _ in range(n_hist):
         histories.append(gen_ops(rng, names, n_ops))
     all_names_probe = [("get", n) for n, _, _ in names]
@@ -178,6 +187,9 @@ def run(ctx):
             if o[0] == "set":
                 nontriv.add((o[1], o[2]))
                 last_set[o[1]] = (o[2], ci[0])
+            if o[0] == "get" and o[1] == "DecimalSeparators" and j > 0 and hist[j - 1] in (("set", "DecimalSeparator", ","), ("set", "DecimalSeparator", ".")) and classify(rep_i[j - 1])[0] == "ok":
+                if ci != ("ok", hist[j - 1][2]):
+                    oracle_fail.append({"why": "DecimalSeparators does not follow the DecimalSeparator just set", "set": hist[j - 1][2], "got": list(ci), "lines": reqs_i[1:j + 3]})
             if o[0] == "get" and o[1] in last_set and j > 0 and hist[j - 1][0] == "set" and hist[j - 1][1] == o[1]:
                 v, res = last_set[o[1]]
                 if res == "ok" and ci[0] == "ok":
